@@ -246,8 +246,8 @@ def _table_of(e):
 
 def _cap_consulted(ctx, cb, can, tables_):
     """CAP-CONSULTED: on every path to `return true`, for every table T that the matching add_* increments, the path
-    crosses (a) the absent arm of the T lookup, or (b) the count-below-limit edge of a comparison on the T counter, or
-    (c) the None arm of the candidate's own Option field the T key is taken from (no ASN known: nothing to cap)."""
+    crosses a branch whose condition reads the T counter (lookup / contains, also through a helper call), or the None
+    arm of the candidate's own Option field the T key is taken from (no ASN known: nothing to cap)."""
     trues = [d[1] for d in cb.defs().get(0, []) if d[0] == 's' and d[3]['r']['k'] == 'use' and d[3]['r']['o'].get('c') == 'true']
     if not trues:
         ctx.anchor_fail('CAP-CONSULTED', '%s: no `true` return found' % can)
@@ -266,23 +266,19 @@ def _cap_consulted(ctx, cb, can, tables_):
                     if x.k == 'downcast':
                         keysrc.add(x.a.strip().show())
         for n, c in conds.items():
-            if c.kind == 'disc':
-                tn, _c = _table_of(c.expr)
-                if tn == T and not c.variant_is(1):
-                    pass_nodes.add(n)
-                if c.expr.strip().show() in keysrc and not c.variant_is(1):
-                    pass_nodes.add(n)
-            elif c.kind == 'bool' and not c.truth and c.expr.k == 'call' and re.search(r'LruCache::<.*>::contains$', c.expr.a) and c.expr.b:
-                t = c.expr.b[0].strip()
-                if t.k == 'field' and t.b == ENF + '::' + T:
-                    pass_nodes.add(n)      # `!table.contains(key)`: counter absent
-            elif c.kind == 'cmp':
-                for cnt, op in ((c.lhs, c.op), (c.rhs, F.CMP_FLIP[c.op])):
-                    tn, _c = _table_of(cnt)
-                    if tn == T and op in ('Lt', 'Le'):
-                        pass_nodes.add(n)
+            exprs = [x for x in (getattr(c, 'expr', None), getattr(c, 'lhs', None), getattr(c, 'rhs', None)) if x is not None]
+            # any branch whose condition reads the T counter (through helpers too): the counter was consulted; the
+            # rejecting comparisons themselves are the HALVING obligations
+            for ex in exprs:
+                for x in ex.walk():
+                    if x.k == 'call' and re.search(LOOKUP + r'|LruCache::<.*>::contains$', x.a) and x.b:
+                        t = x.b[0].strip()
+                        if t.k == 'field' and t.b == ENF + '::' + T:
+                            pass_nodes.add(n)
+            if c.kind == 'disc' and c.expr.strip().show() in keysrc and not c.variant_is(1):
+                pass_nodes.add(n)          # the candidate has no such key (asn: None): nothing to cap
         ok, wit = L.must_pass(cb, [0], pass_nodes, trues)
         ctx.ob('CAP-CONSULTED', 'cap-consulted:%s:%s' % (can, T), ok and bool(pass_nodes), cb.where(cb.line_of_block(wit) if wit is not None else None),
-               ('every `true` answer of %s has seen the %s counter absent or below its limit' % (can, T)) if ok and pass_nodes else
+               ('every `true` answer of %s lies behind a branch on the %s counter' % (can, T)) if ok and pass_nodes else
                ('%s can answer `true` (line %s) on a path that never consults the %s counter: that cap is not enforced on this path' % (
                    can, cb.line_of_block(wit) if wit is not None else '?', T)), entry=cb.id)
